@@ -38,7 +38,11 @@ MODULE = "C04_LRTDP"
 # which fallback of the returned policy the reference machine describes: 1 = deterministic on the planner's own
 # greedy action at every state with a stored action order (the repaired _tear_down_plan_on), 0 = deterministic
 # only at states with a stored value (the behaviour before that repair; for experiments only)
-MODEL_REPAIR = 0 if os.environ.get("C04_MODEL_FALLBACK") == "uniform" else 1
+# 2 = (proposal, for experiments) a labelled state plays the action its label certified
+MODEL_REPAIR = {"uniform": 0, "first-maximiser": 1, "label-action": 2}.get(os.environ.get("C04_MODEL_FALLBACK"), 2)
+# suffix of the two end-of-run signatures when the spec's predicates say that the failure is the known interaction of
+# an admissible but inconsistent heuristic with the arg-max recomputed at tear-down
+SUFFIX_INCONS = ":admissible-inconsistent-heuristic"
 SIG_TIED = "C04:LRTDP.plan_on:policy-at-solved-never-updated-state:unverified-tied-action"
 KB = 16
 SC = 2 ** KB
@@ -55,13 +59,17 @@ INVARIANT CanProgress
 INVARIANT GapBound
 INVARIANT ReturnBound
 INVARIANT AbsorbingZero
+INVARIANT NoFlipIfMonotone
+INVARIANT GapBoundNoFlip
+INVARIANT ReturnBoundNoFlip
 INVARIANT GapBoundLC
 INVARIANT ReturnBoundLC
 INVARIANT InstancesOK
 """
 # every listed invariant must hold on the machine; a failure is a machinery failure (exit 2) unless it is
 # one of the statement's clauses AND the real code reproduces it in the replay of the emitted histories
-DESIGN_INVS = ["Upper", "SolvedClosed", "GapBoundLC", "ReturnBoundLC", "InstancesOK", "CanProgress", "AbsorbingZero"]
+DESIGN_INVS = ["Upper", "SolvedClosed", "GapBoundLC", "ReturnBoundLC", "InstancesOK", "CanProgress", "AbsorbingZero",
+               "NoFlipIfMonotone", "GapBoundNoFlip", "ReturnBoundNoFlip"]
 CLAUSE_INVS = ["GapBound", "ReturnBound"]
 # trace / judge: no exactness cut (an inexact trace is reported as such), same invariants
 CFG_TJ = CFG_MC.replace("CONSTRAINT Exactness\n", "")
@@ -628,7 +636,7 @@ def fin(x):
     return isinstance(x, F)
 
 
-def judge_run(ctx, m, run, jr, case, *, pyx=False, orc=None):
+def judge_run(ctx, m, run, jr, case, *, pyx=False, orc=None, mach=None):
     """Clauses of the statement on the output of one real run.  jr = TLC's judge record for its policy;
     orc = the record that carries the oracle of the instance (default: jr).  Returns True iff no clause failed."""
     ok = True
@@ -719,6 +727,12 @@ def judge_run(ctx, m, run, jr, case, *, pyx=False, orc=None):
         raise TLCFailure(f"generator produced an inadmissible heuristic or improper MDP: {case.get('tag')}")
     if not all(fin(x) for x in vstar) or not all(fin(x) for x in steps) or not fin(vinit) or not fin(pinit):
         raise TLCFailure(f"non-finite oracle values on a proper MDP: {case.get('tag')}")
+    # signature predicate, computed by the spec: the heuristic is not consistent (some backup of h exceeds h; field
+    # `mono` of the oracle bundle) and - when the run is mirrored by the machine (mach = its terminal record) - some
+    # labelled state's arg-max on the final values is no longer the action its label certified (term.flip)
+    src = jr if (two or "mono" not in orc) else orc
+    incons = (not src["mono"]) and (mach is None or "term" not in mach or len(mach["term"]["flip"]) > 0)
+    sfx = SUFFIX_INCONS if incons else ""
     # float slack, derived: the real run works in doubles (unit round-off 1.1e-16); a backup adds a relative
     # error of a few units to numbers of magnitude <= M, the residual test is made on such numbers, and
     # (I - gamma P)^-1 amplifies a per-state error by at most N^pi.  1e-13 * M * (1 + N^pi) is ~100x that bound.
@@ -746,7 +760,7 @@ def judge_run(ctx, m, run, jr, case, *, pyx=False, orc=None):
             v = run["V"].get(s, hv[s])
             gapv = float(F(v) - vstar[s])
             if F(v) - vstar[s] > F(margin) * steps[s] + F(slack(steps[s])):
-                fail("C04:LRTDP.plan_on:initial-state-value-outside-margin",
+                fail("C04:LRTDP.plan_on:initial-state-value-outside-margin" + sfx,
                      f"V[{s}]={v} exceeds V*={float(vstar[s])} by {gapv} > margin*N^pi = {margin}*{float(steps[s])}")
     # ---- clause 4: exact return of the returned policy within margin * N^pi(p0) of the optimum
     if pinit > vinit:
@@ -756,7 +770,7 @@ def judge_run(ctx, m, run, jr, case, *, pyx=False, orc=None):
         # own signature for one precise shape: a state the labelling procedure looked at (it has a stored action
         # order) but never updated, at which the returned policy is not the single action the labels certify
         tied = [s for s in unstored if s in run["orders"] and len(run["pol"].get(s, {})) > 1]
-        fail(SIG_TIED if tied else "C04:LRTDP.plan_on:policy-return-outside-margin",
+        fail(SIG_TIED if tied else "C04:LRTDP.plan_on:policy-return-outside-margin" + sfx,
              f"exact return {float(pinit)} of the returned policy vs optimum {float(vinit)}: gap {float(vinit - pinit)} > "
              f"margin*N^pi = {margin}*{float(ninit)} (returned policy {run['pol']}, states without a stored value {unstored})")
     # ---- clause 5: absorbing states are worth 0 in the reported values and the initial value
@@ -976,7 +990,7 @@ def pipeline_mc(ctx, batch, reps, *, inject=None):
         if run.get("seed_search_failed"):
             ctx.skip("randomised action order: no seed among 96 reproduces the emitted orders")
             continue
-        judge_run(ctx, m, run, jby.get(f"j{k}"), case, pyx=(k % 7 == 0), orc=orcs[r["iid"]])
+        judge_run(ctx, m, run, jby.get(f"j{k}"), case, pyx=(k % 7 == 0), orc=orcs[r["iid"]], mach=r)
         if run["status"] != "ok":
             continue
         why = same_final(m, run, r)
@@ -1024,7 +1038,8 @@ def pipeline_free(ctx, cases):
                 "iterations": c["iterations"], "exact": c["exact"], "warm": c.get("warm"),
                 "tag": f"free{k}:{digest([m, c['seed']])}"}
         tr = by.get(f"t{k}")
-        good = judge_run(ctx, m, run, by.get(f"j{k}"), case, pyx=(k % 7 == 0), orc=tr)
+        good = judge_run(ctx, m, run, by.get(f"j{k}"), case, pyx=(k % 7 == 0), orc=tr,
+                         mach=tr if (tr is not None and tr.get("pc") == "done" and tr.get("mism") == 0 and "term" in tr) else None)
         if run["status"] != "ok" or run["capped"]:
             continue
         ntrials = sum(1 for ch in run["choices"] if ch["k"] == 0)
@@ -1056,6 +1071,11 @@ def make_free_cases(rng, n, tier):
     cases = []
     while len(cases) < n:
         exact = len(cases) % 2 == 0
+        if len(cases) % 32 in (7, 23):                # admissible but inconsistent heuristic (and its consistent control)
+            m = make_incons_instance(rng, kb=20, mode="free", consistent=(len(cases) % 32 == 23))
+            cases.append({"m": m, "rep": dict(REPS[rng.randrange(len(REPS))]), "seed": rng.randrange(10 ** 6),
+                          "randomize": False, "iterations": 4000, "exact": True})
+            continue
         if len(cases) % 16 in (5, 13):                # rare catastrophic outcome (probability 2^-30)
             cases.append(make_rare_case(rng))
             continue
@@ -1404,6 +1424,54 @@ def make_rare_case(rng):
                 "randomize": rng.random() < 0.5, "iterations": 4000, "exact": False}
 
 
+def make_incons_instance(rng, *, kb=KB, mode="mc", consistent=False):
+    """Targeted family "admissible but inconsistent heuristic" (four non-absorbing states, probabilities over 4).
+      s0: a -> g (ra)           b -> x (-1)        start state; h(x) = V*(x) makes b look bad: s0 is labelled with a
+      y0: a -> {x 1/4, z 3/4} (-1)   b -> g (rb)   start state, lured into a by the optimistic h(z) = 0
+      x : -> z (-1)             z : -> g (-big)    h(x) = V*(x) (tight), h(z) = 0 (loose): a backup RAISES V(x)
+    With max_trial_length = 2 a trial y0, x, z is cut before z is updated, the labelling pass fails at z and never
+    gets back to x, whose value stays raised; y0 then learns z, turns to b and is labelled - the run ends with
+    Q(s0, b) = -1 + V(x) above Q(s0, a) although a is the action s0's label certified.
+    consistent=True is the control: h = V* everywhere (no value can rise), same MDP."""
+    big = rng.choice([20, 24])
+    ra = rng.choice([-3, -4])
+    rb = rng.choice([-7, -8])
+    perm = list(range(5))
+    rng.shuffle(perm)
+    s0, y0, x, z, g = perm
+    N, K = 5, 2
+    P = [[[0] * N for _ in range(K)] for _ in range(N)]
+    R = [[[0] * N for _ in range(K)] for _ in range(N)]
+    a0, ay = rng.randrange(2), rng.randrange(2)
+    P[s0][a0][g] = 4; R[s0][a0][g] = ra
+    P[s0][1 - a0][x] = 4; R[s0][1 - a0][x] = -1
+    P[y0][ay][x], P[y0][ay][z] = 1, 3; R[y0][ay][x] = R[y0][ay][z] = -1
+    P[y0][1 - ay][g] = 4; R[y0][1 - ay][g] = rb
+    for k in range(K):
+        P[x][k][z] = 4; R[x][k][z] = -1 - k
+        P[z][k][g] = 4; R[z][k][g] = -big - k
+        P[g][k][rng.choice(perm)] = 4
+        R[g][k] = [rng.choice([-3, 0, 4]) for _ in range(N)]
+    p0 = [0] * N
+    p0[s0], p0[y0] = 1, 1
+    m = {"N": N, "K": K, "PD": 4, "GN": 1, "GD": 1, "ID": 2, "abs": [1 if q == g else 0 for q in range(N)],
+         "avail": [[1, 1] for _ in range(N)], "P": P, "R": R, "p0": p0}
+    vs = pyoracle.optimal_value(m)
+    sc = 2 ** kb
+    eps = F(1, rng.choice([8, 16]))
+    h = [F(0)] * N
+    if consistent:
+        h = [F(0) if q == g else vs[q] for q in range(N)]
+    else:
+        h[x] = vs[x]                                   # exact at x, loose (0) at z, y0; s0 anything admissible
+        h[s0] = rng.choice([F(0), vs[s0]])
+    h[g] = F(rng.choice([0, 2]))
+    aord = [rng.sample([1, 2], 2) for _ in range(N)]
+    m.update(KB=kb, EPS=int(eps * sc), L=2, h=[int(v * sc) for v in h], hkind="consistent-control" if consistent else "inconsistent",
+             rand=0, aord=aord, zl=0, lst=[1] * N, i0=[1 if q > 0 else 0 for q in p0], oracle=1, mode=mode)
+    return m
+
+
 def make_two_scale_case(rng, kind):
     """Rewards r = 2^ka * RA + 2^kb * RB with ka - kb >= 19, exactly representable in doubles but far outside
     32-bit arithmetic: the scale stays symbolic in the spec (mode "judge2", lexicographic oracle).
@@ -1483,6 +1551,7 @@ def make_mc_batch(rng, n, tier, corner=False, budget=None, cap=None, ctx=None):
         batch += [make_flip_instance(rng) for _ in range(12 if tier == "quick" else 60)]
         batch += [make_tie_instance(rng, extra_init=(i_ % 2 == 1)) for i_ in range(8 if tier == "quick" else 40)]
         k_ = 4 if tier == "quick" else 20
+        batch += [make_incons_instance(rng, consistent=(i_ % 3 == 2)) for i_ in range(6 if tier == "quick" else 30)]
         batch += [make_deeptie_instance(rng, rand=0) for _ in range(2 * k_)]
         batch += [make_deeptie_instance(rng, rand=1) for _ in range(k_)]
     total = 0
